@@ -51,6 +51,9 @@ TrEnd ==
     /\ IsEv("End")
     /\ Ln.stopErr = ""                      \* no node gave up on this input
     /\ Len(Ln.sinks) = Len(acc)
+       (* shape of the reference outputs (acc only grows: checking it here  *)
+       (* covers every earlier state of the trace)                          *)
+    /\ OutputsWellFormed /\ EdgeKindOK
     /\ \A i \in DOMAIN acc : amb[i] \/ SinkOK(i, Ln.sinks[i])
        (* NoSiblingInterference on the code: in a fork the sinks are read   *)
        (* after the drain, so a branch that changed shared data shows up    *)
